@@ -749,7 +749,7 @@ pub fn mutate(seq: &[u64], rng: &mut Rng) -> (Vec<u64>, &'static str) {
             rng.below(s.len() as u64) as usize
         }
     };
-    let kind = if s.is_empty() { 6 + rng.below(2) } else { rng.below(12) };
+    let kind = if s.is_empty() { 6 + rng.below(2) } else { rng.below(14) };
     match kind {
         0 | 1 => {
             let i = pos(rng, &s);
@@ -807,6 +807,14 @@ pub fn mutate(seq: &[u64], rng: &mut Rng) -> (Vec<u64>, &'static str) {
             let i = pos(rng, &s);
             s.remove(i);
             (s, "delete-one")
+        }
+        12 | 13 => {
+            // a length-like element shifted by a multiple of 2^32 (or 2^16 / 2^63): a decoder that narrows a length
+            // prefix (`as u32`, `as u16`, `as usize` on a 32-bit mind-set) would accept a second encoding
+            let i = pos(rng, &s);
+            let k = *rng.pick(&[1u64 << 32, 1 << 33, 3 << 32, 1 << 63, 1 << 16, (1 << 32) - (1 << 16), 1 << 48]);
+            s[i] = (s[i] as u128 + k as u128).rem_euclid(P as u128) as u64;
+            (s, "len-plus-2^k")
         }
         _ => {
             // two substitutions
